@@ -62,6 +62,20 @@ def run(ctx):
             if v[k]:
                 idx.append((v, k, len(cases)))
                 cases.append({"src": v[k], "texts": v["texts"]})
+    # bodies that can match the empty string, referenced several times (the second and later references are calls), reached at every position
+    # up to and including the END of the text
+    for B in ("maybe 'a'", "at most 2 'a'", "at least 0 'a'", "line end", "word end", "maybe 'a' maybe 'b'", "'' ", "file end", "at least 0 ('a' or 'b') fewest"):
+        for form in ("%(r)s 'x' %(r)s", "%(r)s %(r)s", "'x' %(r)s %(r)s", "letter %(r)s ' ' letter %(r)s", "%(r)s 'x' %(r)s 'y' %(r)s", "maybe (%(r)s 'x') %(r)s 'y' %(r)s"):
+            v = {"B": B, "texts": ["x", "", "a", "xa", "ax", "a b", "axy", "xy", "y", "xxa", "ab"],
+                 "written": "find all " + form % dict(r="(%s)" % B), "inline": None,
+                 "global": "set g to pattern %s\nfind all %s" % (B, form % dict(r="g")),
+                 "global_multi": "set g to pattern %s\nfind all 'q'\nfind all %s\nfind all %s" % (B, form % dict(r="g"), form % dict(r="g"))}
+            first = form % dict(r="@")
+            v["inline"] = "find all " + first.replace("@", "{%s} = s" % B, 1).replace("@", "s")
+            vs.append(v)
+            for k in ("written", "inline", "global", "global_multi"):
+                idx.append((v, k, len(cases)))
+                cases.append({"src": v[k], "texts": v["texts"]})
     gres, dis, stats = corr_core.run_core(cases, shards=12, spec=True)
     report_core_disagreements(ctx, cases, dis, in_scope=in_scope_core, known=known_core)
     ev = 0
